@@ -441,7 +441,7 @@ def run_property(pid, tier, seed):
                                            if mode == "cli" else
                                            "real binary, 21 formulas x {-m -t, -m -t -f true}: exactly one satisfying row for a satisfiable formula, none otherwise, and the row satisfies the formula"
                                            if mode == "climodel" else
-                                           "real binary, 36 formulas (incl. bound-before-free names, shadowing, fixed points, extreme constants) x {-t, -t -f true/false/any, -v} against the replay crate's independent evaluator: columns = the free variables; disjoint rows with the right result on every covered assignment; coverage = all / satisfying / falsifying assignments per filter; -v = exactly the satisfying assignments over free names"
+                                           "real binary, 36 formulas (incl. bound-before-free names, shadowing, fixed points, extreme constants) x {-t, -t -f true/false/any, -v} against the replay crate's independent evaluator: columns = the free variables in variable order; disjoint rows with the right result on every covered assignment; coverage = all / satisfying / falsifying assignments per filter; -v = exactly the satisfying assignments over free names; identical table / listing through --evaluate, file and stdin, for -b 2/3/5 and for the 12 filter spellings"
                                            if mode == "clitable" else
                                            "real binary, 12 formulas x 10 ordering files (permutations, subsets, supersets with unused names, duplicates, punctuation, comments): same satisfying assignments of the same names as the default order; listed variables in file order; -r export fed back with -o reproduces the identical table"),
                                  "failing_input": foundin})
@@ -717,7 +717,7 @@ def make_baseline():
 PROP_MODES = {
     "C01": ["formula"], "C02": ["ops", "quant", "count", "model", "retain", "formula"], "C03": ["ops", "formula"],
     "C04": ["quant", "formula"], "C05": ["count", "formula"], "C06": ["fp", "formula"], "C07": ["model"],
-    "C08": ["parse"], "C09": ["formula", "index"], "C11": ["index"], "C12": ["parse", "formula", "index"],
+    "C08": ["parse"], "C09": ["formula", "index"], "C10": ["cli"], "C11": ["index"], "C12": ["parse", "formula", "index"],
     "C13": ["history", "ops", "retain"], "C20": ["retain"],
 }
 
